@@ -249,7 +249,8 @@ func runLLMNR(w *rt.World, res *hx.Result, realServer, realClient bool) *hx.Viol
 	edgeIDs := hx.G(3) == 0
 	llJunk := [...]int{0, 0, 0, 2, 5, 9}[hx.G(6)]
 	llJunkShape := hx.G(3)
-	jitter := hx.G(3) == 0 // the responder handler answers after it returned, from a timer (RFC 4795 jitter), through the writer it was given
+	inPlace := hx.G(4) == 0 // the responder handler turns the query message itself into the response
+	jitter := hx.G(3) == 0  // the responder handler answers after it returned, from a timer (RFC 4795 jitter), through the writer it was given
 
 	canaryRan := false
 	var srv *llmnr.Server
@@ -263,15 +264,24 @@ func runLLMNR(w *rt.World, res *hx.Result, realServer, realClient bool) *hx.Viol
 			name := msg.Questions[0].Name
 			for i := 0; i < nNames; i++ {
 				if known[i] && llName(i) == name {
+					var carried net.IP
+					if len(msg.Answers) > 0 && len(msg.Answers[0].RData) == 4 {
+						carried = net.IP(msg.Answers[0].RData)
+					}
 					resp := llmnr.CreateResponseFromMessage(msg)
+					if inPlace && len(msg.Answers) == 0 {
+						// a handler that answers in place: the message it was handed is its own to turn into the response
+						msg.SetResponse()
+						resp = msg
+					}
 					if msg.Questions[0].Type == llmnr.TypeAAAA {
 						resp.AddAnswerClassINTypeAAAA(name, llIP6(i).String())
 					} else {
 						resp.AddAnswerClassINTypeA(name, llIP(i).String())
 					}
-					if len(msg.Answers) > 0 && len(msg.Answers[0].RData) == 4 {
+					if carried != nil {
 						// echo the record the request carried: read from the decoded message when the handler runs
-						resp.AddAnswerClassINTypeA(name, net.IP(msg.Answers[0].RData).String())
+						resp.AddAnswerClassINTypeA(name, carried.String())
 					}
 					if jitter {
 						d := time.Duration(1+int(msg.ID)%7) * time.Millisecond
